@@ -35,8 +35,8 @@ VALID = {
 SAFE = {'DT': '2020', 'TM': '12', 'DTM': '2020', 'NM': '10', 'SI': '1', 'TN': '5551234'}
 INVALID = {
     'DT': ['20201301', '2020023', 'abcd', '20200230', '2020 ', '20-02'],
-    'TM': ['25', '1261', '12000', '12:00', 'noon', '120000.12345'],
-    'DTM': ['20201301', '2020022925', '202002291', 'yesterday', '20200229120000.123456'],
+    'TM': ['25', '1261', '12000', '12:00', 'noon', '120000.12345', '120000.123456', '235959.99999+0100', '1200.5'],
+    'DTM': ['20201301', '2020022925', '202002291', 'yesterday', '20200229120000.123456', '20200229123059.12345', '20200229120000.123456-0500', '2020022912.5'],
     'NM': ['abc', '1,5', '1.2.3', '--1', '12345678901234567'],
     'SI': ['abc', '1.5', '10000', '99999'],
     'TN': ['abc', '-', 'X12'],
@@ -85,6 +85,13 @@ class Gen:
                 self.note('leaf-blank-edge')
                 v = r.choice([' x', 'x ', ' ', '  y  '])
             return ''.join(c for c in v if c not in self.delims)
+        if mode == 'canon+' and dt in INVALID and r.random() < .15:
+            # canonical text (no blank edge, no delimiter) that is NOT a value of its datatype: under TOLERANT the leaf keeps it verbatim
+            # (too many fraction digits, month 13, letters in a number...) — seed C01-h truncated over-precise times
+            pool = [x for x in INVALID[dt] if x.strip() == x and not any(c in self.delims for c in x)]
+            if pool:
+                self.note('leaf-invalid-verbatim')
+                return r.choice(pool)
         if dt in VALID:
             self.note('leaf-' + dt)
             v = r.choice(VALID[dt])
